@@ -120,14 +120,20 @@ def _parens(text, tape):
 
 def _op(op, tape, wordy=False, depth=0):
     """Binary operator with surrounding whitespace; inside parentheses a line break may follow it."""
-    n = 4 if depth > 0 else 3
+    n = 7 if depth > 0 else 3
     k = tape.pick('op-space', n)
     if k == 1 and not wordy:
         return op
     if k == 2:
-        return '  ' + op + '  '
+        return '  ' + op + '\t'
     if k == 3:
         return ' ' + op + '\n        '
+    if k == 4:
+        return ' ' + op + '  # note (a+b) # again\n        '
+    if k == 5:
+        return '\n' + op + ' '
+    if k == 6:
+        return ' ' + op + '\n\n    '      # blank line inside a parenthesised statement
     return ' ' + op + ' '
 
 
@@ -192,7 +198,9 @@ def render_expr(e, tape, depth=0):
     raise ValueError(e)
 
 
-COMMENTS = ['', '  # comment', ' # note: C = a*Y # nested hash', '# x']
+COMMENTS = ['', '  # comment', ' # note: C = a*Y # nested hash', '# x', ' # 1) unbalanced', '  # see (G&L 2007, ch. 3',
+            ' # {brace <angle [bracket `tick']
+PRE_LINES = [None, '', '# a comment line (with brackets)', '   ', '# 1) households', '# ((( = {', '\t', '#']
 
 
 def render_statement(s, tape):
@@ -227,13 +235,9 @@ def render_program(prog, tape=None):
     tp = tape if isinstance(tape, Tape) else Tape(tape)
     chunks = []
     for s in prog:
-        pre = tp.pick('pre-statement', 4)
-        if pre == 1:
-            chunks.append('')
-        elif pre == 2:
-            chunks.append('# a comment line (with brackets)')
-        elif pre == 3:
-            chunks.append('   ')
+        pre = tp.pick('pre-statement', len(PRE_LINES))
+        if pre:
+            chunks.append(PRE_LINES[pre])
         chunks.append(render_statement(s, tp))
     tail = tp.pick('tail', 3)
     text = '\n'.join(chunks)
@@ -633,7 +637,7 @@ def programs(*, max_statements=4, max_leaves=6, max_offset=3, named_periods=Fals
 
 def tapes(max_len=40):
     from hypothesis import strategies as st
-    return st.lists(st.integers(0, 3), max_size=max_len)
+    return st.lists(st.sampled_from([0, 0, 0, 0, 1, 2, 3, 4, 5, 6, 7, 1, 2]), max_size=max_len)
 
 
 # -- exhaustive enumerator over a reduced alphabet ------------------------------------
